@@ -24,10 +24,10 @@ TRUSTED = [
     "modelled not verified: when Go's collector runs a finaliser (an event enabled only for unreachable, "
     "not-held, armed values); Go's sort.Sort, maps, mutex; UnsafePool (tag safepool) is observed only (C14)",
 ]
-THEOREMS = ["C18_finalize_at_most_once", "C18_release_at_most_once", "C18_finalize_exactly_once_by_close_partial",
+THEOREMS = ["C18_finalize_at_most_once", "C18_release_at_most_once", "C18_finalize_exactly_once_by_close",
             "C18_release_exactly_once_after_finalize", "C18_close_order_reverse_mark", "C18_extraction_order_unique",
             "C18_never_finalized_while_reachable", "C18_killed_context_skips_finalizers_not_releases",
-            "C18_killed_context_releases_exactly_once"]
+            "C18_killed_context_releases_exactly_once", "C18_finalizer_runs_in_owning_context"]
 
 
 # ------------------------------------------------------------------ pool histories
@@ -200,7 +200,7 @@ def world_valid(ops):
             if closed:
                 return False
             if len(o) == 1:
-                held |= {k for k in inreg if not finflag[k]}
+                held |= {k for k in inreg if not finflag[k]} | pending
             for k in inreg:
                 finflag[k] = True
             pending = set()
@@ -261,6 +261,54 @@ def coq_crosscheck(ck, samples):
         f.write("\n".join(body) + "\n")
     rc, so, se = vlib.sh(["coqc", "-R", os.path.join(vlib.COQ, "theories"), "GV", "Cases.v"], cwd=d, timeout=900)
     return rc == 0, (so + se)[-800:]
+
+
+def rand_stack(rng):
+    """history over a stack of pools: pushes (isolating/sharing), markings, collector callbacks on any pool, exits, close"""
+    n = 4 + rng.geometric(18, 70)
+    nk = 1 + rng.below(5)
+    ops = []
+    for _ in range(n):
+        r = rng.below(100)
+        k = 1 + rng.below(nk)
+        if r < 14:
+            ops.append("P1")
+        elif r < 18:
+            ops.append("P0")
+        elif r < 48:
+            ops.append("M %x %x" % (k, rng.choice([1, 1, 2, 3, 3, 3, 0])))
+        elif r < 68:
+            ops.append("G %x %x" % (rng.below(4), k))
+        elif r < 78:
+            ops.append("RP")
+        elif r < 90:
+            ops.append("X0")
+        elif r < 96:
+            ops.append("X1")
+        else:
+            ops.append("CL")
+    if rng.chance(1, 2):
+        ops.append("CL")
+    return ops
+
+
+def owner_predicate(events):
+    """every F<h>:<k> / R<h>:<k> must be preceded by an M<h>:<k>:_ since the last P<h> (context h's own pool registered k)"""
+    marked = {}
+    for e in events:
+        if e == "PANIC":
+            return "Go panic"
+        t, rest = e[0], e[1:]
+        if t == "P":
+            marked[int(rest)] = set()
+        elif t == "M":
+            h, k, _ = rest.split(":")
+            marked.setdefault(int(h), set()).add(k)
+        else:
+            h, k = rest.split(":")
+            if k not in marked.get(int(h), set()):
+                return "%s: context %s ran a finaliser/release for key %s that was never marked in its pool" % (e, h, k)
+    return None
 
 
 def pool_ops(ops):
@@ -578,6 +626,45 @@ def run(tier, seed):
         if 0 <= i < len(impl):
             ck.sample({"history": hist_str(cases[i][1]), "impl": impl[i].split(" ", 1)[1][:300]})
 
+    # ---------------- stack of per-context pools
+    nstack = 20000 if tier == "quick" else 300000
+    sh = [rand_stack(rng) for _ in range(nstack)]
+    sh[0] = ["M 1 1", "P1", "M 1 1", "M 2 3", "X0", "CL"]
+    slines = ["k%d %s" % (i, ";".join(o)) for i, o in enumerate(sh)]
+    rc1, simpl, e1 = vlib.run_lines(gvh, ["stack"], slines, timeout=1800)
+    rc2, smodel, e2 = vlib.run_lines(oracle, ["stack"], slines, timeout=1800)
+    if rc1 != 0 or len(simpl) != len(slines):
+        ck.violation("gvh-gc stack crashed or produced %d/%d lines" % (len(simpl), len(slines)),
+                     {"kind": "crash", "stderr": e1[-2000:], "last_line": slines[min(len(simpl), len(slines) - 1)]})
+    sdiff, sfirst, sfail = 0, None, 0
+    for i, l in enumerate(slines):
+        if i >= len(simpl):
+            break
+        evs = simpl[i].split(" ")[1]
+        evl = [] if evs == "-" else evs.split(",")
+        ck.case("stack:" + l.split(" ", 1)[1], any(e[0] in "FR" for e in evl))
+        ck.count("history:stack")
+        ck.count("stack-maxdepth:%d" % max([1] + [int(e[1:]) for e in evl if e[0] == "P"]))
+        bad = owner_predicate(evl)
+        if bad:
+            sfail += 1
+            pred_fail += 1
+            if sfail <= 2:
+                ck.violation("owning-context property fails on the implementation: " + bad,
+                             {"kind": "Go!=S", "engine": "gc/stack", "history": l.split(" ", 1)[1], "impl": simpl[i],
+                              "theorems": ["C18_finalizer_runs_in_owning_context"]})
+        if i < len(smodel) and simpl[i] != smodel[i]:
+            sdiff += 1
+            if sfirst is None:
+                sfirst = i
+    if sdiff:
+        ndiff += sdiff
+        if not first_diffs:
+            ck.cov["first_stack_difference"] = {"history": slines[sfirst], "impl": simpl[sfirst], "model": smodel[sfirst]}
+    ck.cov["stack_differences"] = sdiff
+    if simpl:
+        ck.sample({"stack_history": slines[0].split(" ", 1)[1], "impl": simpl[0].split(" ", 1)[1]})
+
     # ---------------- extraction cross-check: sampled histories re-evaluated inside Coq
     nx = 40 if tier == "quick" else 600
     picks = [rng.below(len(cases)) for _ in range(nx)] + [widx]
@@ -613,8 +700,13 @@ def run(tier, seed):
               "setmetatable(t, gcmt('out'))\nlog('survived')\n")
     cross2 = ("local t = setmetatable({}, gcmt('out'))\nlocal ctx = runtime.callcontext({kill={cpu=100000}}, function() setmetatable(t, gcmt('in')) end)\n"
               "log('survived')\n")
-    lua_cases.append(("cross-pool-remark-outer", cross1, "", None, "cross"))
-    lua_cases.append(("cross-pool-remark-inner", cross2, "", None, "cross"))
+    cross3 = ("t = setmetatable({}, gcmt('out'))\nruntime.callcontext({kill={cpu=100000}}, function() runtime.callcontext({kill={cpu=10000}}, function() "
+              "setmetatable(t, gcmt('in2')) u = mkud('u', gcmt('gu')) end) log('mid') end)\nlog('survived')\n")
+    # repaired behaviour: the value stays with the pool of the enclosing context that already tracks it;
+    # a stale Go finaliser of a discarded pool is cleared before a new one is set
+    lua_cases.append(("cross-pool-remark-outer", cross1, "", ["gc:in", "l:survived", "close", "gc:out"], "cross"))
+    lua_cases.append(("cross-pool-remark-inner", cross2, "", ["l:survived", "close", "gc:in"], "cross"))
+    lua_cases.append(("cross-pool-remark-nested", cross3, "", ["gc:gu", "rel:u", "l:mid", "l:survived", "close", "gc:in2"], "cross"))
     llines = [lua_line("L%d" % i, c[1], c[2]) for i, c in enumerate(lua_cases)]
     lout = vlib.run_lines_resilient(gvh, ["lua"], llines, per_case_timeout=30)
     kf_cross = ck.known_match(lambda k: k.get("id") == "C18-setfinalizer-twice-across-pools")
@@ -654,24 +746,20 @@ def run(tier, seed):
                     else:
                         bad = "finalisers never ran for %s" % missing[:5]
         elif kind == "lost":
-            if status != "ok" or "gc:keep" not in log:
-                bad = "status %s log %s" % (status, log)
-            elif "gc:lost" not in log:
-                if kf is not None:
+            # repaired: a value the collector queued before Close is still finalised by Close, in mark order
+            if status != "ok" or log != ["close", "gc:keep", "gc:lost"]:
+                if "gc:lost" not in log and kf is not None:
                     ck.known_finding(kf)
                     ck.count("known:lua-lost-on-close")
                 else:
-                    bad = "__gc of a collected value never ran although the runtime was closed"
-            ck.cov["lua_witness_lost_on_close_still_fails"] = ("gc:lost" not in log)
+                    bad = "status %s log %s (expected close, gc:keep, gc:lost)" % (status, log)
+            ck.cov["lua_pending_at_close_finalised"] = ("gc:lost" in log)
         elif kind == "cross":
-            if status == "CRASH" and "finalizer already set" in errm:
-                if kf_cross is not None:
-                    ck.known_finding(kf_cross)
-                    ck.count("known:cross-pool-crash")
-                else:
-                    bad = "process killed: runtime.SetFinalizer: finalizer already set"
-            elif status != "ok" or "l:survived" not in log:
-                bad = "status %s log %s" % (status, log)
+            if status == "CRASH" and "finalizer already set" in errm and kf_cross is not None:
+                ck.known_finding(kf_cross)
+                ck.count("known:cross-pool-crash")
+            elif status != "ok" or log != expect:
+                bad = "status %s log %s, expected %s; %s" % (status, log, expect, errm[:200])
         if bad:
             lua_fail += 1
             if lua_fail <= 3:
@@ -703,7 +791,13 @@ def run(tier, seed):
                              {"kind": "Go!=S", "engine": "gc/pool", "history": hist_str(small), "original_history": hist_str(o),
                               "impl": xout[j], "failed_predicates": f, "theorems": THEOREMS})
                 break
-    if ndiff and not pred_fail and not lua_fail:
+    if ndiff and not pred_fail and not lua_fail and not first_diffs:
+        d = ck.cov.get("first_stack_difference", {})
+        ck.violation("the stack of pools no longer matches the Coq model GC/Stack.v (Go≈IM/gc-stack); no property-level failure found",
+                     {"kind": "Go!=IM", "correspondence": "Go≈IM/gc-stack", "history": d.get("history"), "impl": d.get("impl"),
+                      "model": d.get("model"), "differences": ndiff,
+                      "theorems_no_longer_about_this_code": ["C18_finalizer_runs_in_owning_context"]}, no_input=True)
+    elif ndiff and not pred_fail and not lua_fail:
         i = first_diffs[0]
         def differs(cand):
             l = "x " + hist_str(cand)
